@@ -92,8 +92,38 @@ package negotiation
 //@ noinline
 //@ end
 
+// RFC 8446 4.1.2: ClientHello2 is ClientHello1 with only the listed changes (key_share, early_data,
+// cookie, padding, pre_shared_key); after setting those aside the two extension lists are the same
+// list: same number of extensions, same types in the same order, same data. An extension added to
+// (or dropped from) the end of ClientHello2 is a change.
 //@ func retryExtensionsMatch
 //@ noinline
+//@ watch slices.EqualFunc
+//@ ensures compared-as-whole-lists: ncalls("slices.EqualFunc") == 1 && result == retBool("slices.EqualFunc", 0)
+//@ ensures first-list-against-second-list: sameSlice(argAs("slices.EqualFunc", 0, first), first) && sameSlice(argAs("slices.EqualFunc", 1, second), second)
+//@ end
+
+// The element comparison: same extension type and byte-identical extension data.
+//@ func retryExtensionsMatch$1
+//@ ensures same-type-and-data: result == (a.Type == b.Type && bytesEq(a.Data, b.Data))
+//@ end
+
+// What is set aside before the comparison (RFC 8446 4.1.2): padding; early_data of ClientHello1; key_share
+// when the HelloRetryRequest selected a group; cookie when it carried one. Nothing else: a list without
+// such extensions is compared as it is.
+//@ define SETASIDE(t) (t == extension.TypePadding || (t == extension.TypeEarlyData && initial) || (t == extension.TypeKeyShare && request.HasSelectedGroup) || (t == extension.TypeCookie && request.HasCookie))
+//@ func comparableRetryExtensions
+//@ ensures not-longer: len(result) <= len(values)
+//@ ensures own-list: fresh(result) || len(result) == 0
+// [engine limit: the quantified form "no element of the result has a set-aside type" is a loop invariant over a
+//  slice of structs through append and stays `unknown`; stated for the one-extension list, both directions]
+//@ ensures single-set-aside-removed: len(values) == 1 && SETASIDE(old(values[0].Type)) ==> len(result) == 0
+//@ ensures single-other-kept: len(values) == 1 && !SETASIDE(old(values[0].Type)) ==> len(result) == 1 && result[0].Type == old(values[0].Type) && sameSlice(result[0].Data, old(values[0].Data))
+//@ loop #1: not-longer: len(result) <= idx && len(result) <= cap(result) && cap(result) == len(values) && fresh(result)
+//@ loop #1: first-input-kept: len(values) >= 1 ==> values[0].Type == old(values[0].Type) && sameSlice(values[0].Data, old(values[0].Data))
+//@ loop #1: nothing-yet: idx == 0 ==> len(result) == 0
+//@ loop #1: single-set-aside-removed: idx == 1 && len(values) == 1 && SETASIDE(old(values[0].Type)) ==> len(result) == 0
+//@ loop #1: single-other-kept: idx == 1 && len(values) == 1 && !SETASIDE(old(values[0].Type)) ==> len(result) == 1 && result[0].Type == old(values[0].Type) && sameSlice(result[0].Data, old(values[0].Data))
 //@ end
 
 //@ func validateRetryCookie
